@@ -6,6 +6,9 @@ ALL = ["C%02d" % i for i in range(1, 37)]
 
 # id -> (design section, technique, level text, level note)
 CLAIMED = {
+ "C01": ("§2 C01", "typed-AST switch exhaustiveness with who-may-construct, field-read coverage over the call graph from Print, sibling agreement printer/parser, CFG classification of error returns",
+  "Decides that the printer cannot lose a part of the tree by construction: every emitting type switch reachable from Print covers every parser-constructible node type, every non-position, non-comment node field is read by printer code (the documented cosmetic rewrites excepted one symbol each), and Print fails only for the documented refusal, an unsupported root and flush errors. A field or node type the printer never looks at cannot survive Parse-Print-Parse, so this is a necessary condition over all inputs and option combinations.",
+  "Does not decide quoting, spacing, separators or heredoc placement, i.e. that what is printed re-parses to the same tree. Trusts the reference graph (type-resolved identifiers, interface calls expanded to all implementations) and that the printer does not use reflection (checked)."),
  "C14": ("§2 C14", "typed-AST exhaustiveness + per-case path enumeration + CFG must-pass-through (go/types, own CFG)",
   "Decides from the source that syntax.Walk has a case for every parser-constructible node type, that each case hands every child and comment field to a visiting helper exactly once on every path, that f(node)/f(nil) bracket the children on every path and that Preorder cannot yield after the consumer stopped. This is the structural part of 'visits every node exactly once'; it quantifies over all code paths of Walk rather than over sampled trees.",
   "Trusts go/types and the checker's CFG construction; assumes trees are acyclic and nodes are built only in package syntax; does not decide the comment-order invariant behind the break in the trailing-comment loops."),
